@@ -184,6 +184,18 @@ FLAG_PRIORITY = ["thr0", "overelect", "shortpile", "dictator_exhausted", "booste
 CONSEQUENCE = {"NonTermination", "BoundedRounds", "NoRoundEnabled", "Truncated", "OverElected", "ExactlySeats"}
 
 
+_LIVE = []
+
+
+def live_flags(rule, flags):
+    """the recorded-finding predicates that are still *recorded* (known_findings.json, not its `fixed` list) for this rule: a predicate
+    whose defect has been repaired no longer excuses anything"""
+    if not _LIVE:
+        from ..common import known_findings
+        _LIVE.append({f["sig"] for f in known_findings().get("findings", [])})
+    return [f for f in flags if "%s:KF:%s" % (rule, "veto_below" if f == "veto_under" else f) in _LIVE[0]]
+
+
 def signature(trace, clause, flags):
     """rule : KF : the first recorded-finding predicate (fixed priority) true in the state before the failing step, when the
     clause is a consequence clause; otherwise rule : clause : predicate-or-'-' (content clauses are never folded)."""
@@ -218,9 +230,10 @@ def judge(res, pid, traces, workdir, monitors=etrace.ALL_MONITORS, nontrivial=No
         for rec in v["rejects"] + ([v["final"]] if v["final"]["clause"] else []) + v["monitors"]:
             clause = rec["clause"]
             clause_counts[clause] = clause_counts.get(clause, 0) + 1
-            if pid == "C10" and clause == "Error:ValueError" and rec.get("flags"):
+            live = live_flags(t["cfg"]["rule"], rec.get("flags", []))
+            if pid == "C10" and clause == "Error:ValueError" and live:
                 continue        # an exception in a state covered by a recorded C01 finding is not a tie-discipline matter
-            if pid in clause_property(t["cfg"]["rule"], clause, rec.get("flags", [])):
+            if pid in clause_property(t["cfg"]["rule"], clause, live):
                 sig = signature(t, clause, rec.get("flags", []))
                 res.violation(sig, "trace of %s rejected at event %d: clause %s (spec status %s, flags %s)" % (
                     t["cfg"]["rule"], rec["l"], clause, rec["status"], rec.get("flags", [])),
@@ -300,9 +313,20 @@ def family_sampled(rng, family, n, cand_range, max_ballots, max_paths=60, ration
 
 
 def add_slow_slice(rng, inputs, k):
-    for inp in rng.sample(inputs, min(len(inputs), k)):
+    base = list(inputs)
+    for inp in rng.sample(base, min(len(base), k)):
         s = dict(inp)
         s["slow"] = True
+        inputs.append(s)
+    # a named slice: the same abstract inputs under concrete candidate names (awkward strings, names nested in one another such as
+    # c1 / c10 or Ann / JoAnn) and another order of the candidate tuple; the recorder maps the run back to the abstract names
+    r2 = random.Random(rng.randrange(10**9))
+    for inp in r2.sample(base, min(len(base), 2 * k)):
+        if "names" in inp or len(inp["cands"]) > len(D.NESTED):
+            continue
+        s = dict(inp)
+        s["names"] = dict(zip(inp["cands"], D.sample_names(r2, len(inp["cands"]))))
+        s["cand_order"] = r2.sample(list(inp["cands"]), len(inp["cands"]))
         inputs.append(s)
     return inputs
 
